@@ -10,7 +10,7 @@ def _c17(tier):
     # cplx <-> reim4 conversion: 5x5 entry points per stratum
     for k in range(2, 17):
         jobs.append(dict(sub="convert", count=geo(k, 15000, 7, 200) * mult, fix=dict(k=k)))
-    # dot products: every row count 0..64 exhaustively stratified in four bands + the boundary values
+    # dot products: row counts 0..64 stratified in four bands
     for lo, hi in ((0, 4), (5, 16), (17, 40), (41, 64)):
         jobs.append(dict(sub="dot", count=50000 * mult, fix=dict(nrows=(lo, hi))))
     # pointwise kernels: per layout and log2 m
@@ -21,6 +21,11 @@ def _c17(tier):
     for fn in (0, 1, 2):
         jobs.append(dict(sub="convolution", count=50000 * mult, fix=dict(fn=fn)))
         jobs.append(dict(sub="convolution", count=12000 * mult, fix=dict(fn=fn, sizea=(0, 2), sizeb=(0, 2), dest_size=(0, 3), offset=(0, 3))))
+    for j in jobs:  # thorough: split the long poles over workers (each piece gets its own seed)
+        if j["count"] >= 800000:
+            j["split"] = 6
+        elif j["count"] >= 250000:
+            j["split"] = 3
     return jobs
 
 
